@@ -23,11 +23,12 @@ def cells(X):
     out = []
     for s in range(X['mappingStatesNo']):
         t = tos[s] if s < len(tos) else 0
-        els = sorted({0, max(t - 1, 0), t, t + 1, 10 * t, 31, 100})
+        els = sorted({0, max(t - 1, 0), t, t + 1, 10 * t, 31, 100, 255, 256, 256 + t, 65535, 65536, 65536 + t, 65537 + t, 2**32, 2**32 + t})     # also what a narrowed elapsed time would alias
         for el in els:
-            ops = ['fsm new 0 map', 'clock 5000000']
+            base = 5000 if el < 5000 else 10**10
+            ops = ['fsm new 0 map', 'clock %d' % (base * 1000)]
             for i in INPUTS:
-                ops.append('fsm set 0 %d %d' % (s, 5000 - el))
+                ops.append('fsm set 0 %d %d' % (s, base - el))
                 ops.append('fsm step 0 %d' % i)
             out.append(('cell_s%d_e%d' % (s, el), ops))
     return out
@@ -65,6 +66,8 @@ def cases(rng, tier, X):
     for k in range(n):
         out.append(('seq%d' % k, sequence(rng, rng.randint(5, 60))))
     # universal automata schedule (all public calls, missing objects, near-colliding keys, bridged frames, every deadline): this check's predicate on it
+    # one kind of call repeated hundreds of times (run lengths, counters, thresholds), then the consequences
+    out += auto.soak_cases(rng, tier)
     for k in range(150 if tier == 'quick' else 6000):
         out.append(('au%d' % k, auto.schedule(rng)))
         if k % 3 == 0:
@@ -83,5 +86,5 @@ def classify(ops, impl):
         ks.append('has_tick')
     if any(' state=0 ' in l for l in impl if l.startswith('fsm 0')) and any(' state=2 ' in l for l in impl if l.startswith('fsm 0')):
         ks.append('reaches_emit_and_idle')
-    ks.append('cell' if ops and ops[1].startswith('clock 5000000') else 'sequence')
+    ks.append('cell' if ops and (ops[1].startswith('clock 5000000') or ops[1].startswith('clock 10000000000000')) else 'sequence')
     return ks
